@@ -136,8 +136,10 @@ class WarningAggregator(logging.Filter):
     def __init__(self):
         self.meta_warnings = [
             MetaWarning(".", "{} warnings generated during preprocessing."),
+            # The category is named just before the quoted name of the file;
+            # the same words inside a file name do not count.
             MetaWarning(
-                "user include",
+                "user include($| ')",
                 "{} user include files could not be found.\n"
                 + "  These could contain important macros and includes.\n"
                 + "  Suggested solutions:\n"
@@ -146,7 +148,7 @@ class WarningAggregator(logging.Filter):
                 + "  - Check if the include(s) should have used '<>'.",
             ),
             MetaWarning(
-                "system include",
+                "system include($| ')",
                 "{} system include files could not be found.\n"
                 + "  These could define important feature macros.\n"
                 + "  Suggested solutions:\n"
